@@ -10,7 +10,7 @@ from vmon.oracle import cifcmp
 from vmon.oracle import geometry as G
 
 PROPERTY = "C15"
-RULE = ("Generated structures (1-12 atoms; orthorhombic, LAMMPS-triclinic and arbitrarily rotated cells; coordinates "
+RULE = ("Generated structures (1-12 atoms; orthorhombic, LAMMPS-triclinic, arbitrarily rotated and almost orthorhombic (angles 1e-5..5e-3 degrees from 90) cells; coordinates "
         "inside, outside and exactly on the cell boundary; bonds/angles/dihedrals/impropers; extra per-atom, per-bond, "
         "per-angle and per-torsion columns; fractional or Cartesian output). t1=save(a), b=load(t1), t2=save(b), "
         "t3=save(load(t2)): b is compared with a field by field (fractional coordinates modulo 1 to half the printed "
@@ -33,7 +33,7 @@ def cases(tier, seed):
     n = 200 if tier == "quick" else 60000
     out = []
     for j in range(n):
-        cell = ["ortho", "tri", "rotated"][j % 3]
+        cell = ["ortho", "tri", "rotated", "tri", "tiny_tilt", "ortho", "rotated"][j % 7]
         mode = "fract" if (j // 3) % 3 else "cart"
         if mode == "cart" and cell == "rotated":
             mode = "fract"
@@ -43,7 +43,14 @@ def cases(tier, seed):
 
 def build(rng, case):
     n = int(rng.integers(1, 13))
-    cellm = atomsgen.random_cell(rng, case["cell"], scale=9.0)
+    if case["cell"] == "tiny_tilt":
+        # almost orthorhombic: angles 1e-5 .. 5e-3 degrees away from 90 (a printed angle of 90.0000 must mean 90 +- 5e-5)
+        cellm = atomsgen.random_cell(rng, "ortho", scale=9.0)
+        for (i, j) in ((1, 0), (2, 0), (2, 1)):
+            if rng.integers(3):
+                cellm[i, j] = float(rng.choice([-1, 1])) * cellm[i, i] * np.radians(10 ** rng.uniform(-5, -2.3))
+    else:
+        cellm = atomsgen.random_cell(rng, case["cell"], scale=9.0)
     extras = {}
     for kind, pool in (("atom", ["_atom_site_occupancy", "_atom_site_vmon_tag"]), ("bond", ["_geom_bond_distance", "_ccdc_geom_bond_type"]),
                        ("angle", ["_geom_angle", "_geom_angle_vmon"]), ("dihedral", ["_geom_torsion", "_geom_torsion_vmon"])):
@@ -248,13 +255,23 @@ def run_case(case, ctx):
         with warnings.catch_warnings():
             warnings.simplefilter("ignore")
             aa = ase.io.read(io.StringIO(t1), format="cif")
+        fb_ = G.frac(np.array(b.cell, float), np.asarray(b.positions, float))
+        dd = circ(fb_[:, None, :] - fb_[None, :, :]).max(axis=2) + np.eye(len(fb_))
+        if len(fb_) > 1 and dd.min() < 2e-3:
+            # ASE's reader merges sites closer than 1e-3 in fractional coordinates (its symprec): not a second opinion here
+            st.count("ase_not_consulted_(two sites within its merging distance)")
+            raise LookupError("sites within ASE's merging distance")
         if np.abs(aa.cell.array - np.array(b.cell, float)).max() > 1e-6:
             fail("ASE reads cell %s, mofun %s" % (aa.cell.array.tolist(), np.array(b.cell).tolist()), "ase_cell")
         elif len(aa) != len(b) or G.equal_mod_lattice(np.array(b.cell, float), aa.positions, b.positions).max() > 1e-6:
-            fail("ASE reads other positions than mofun from the same file", "ase_positions")
+            ctx.fail("ASE reads other positions than mofun from the same file (%d atoms vs %d)" % (len(aa), len(b)),
+                     witness=dict(w, clause="ase_positions", file=t1, ase_scaled=aa.get_scaled_positions().tolist(),
+                                  mofun_positions=np.asarray(b.positions, float).tolist()))
         if list(aa.symbols) != list(b.elements):
             fail("ASE reads elements %s, mofun %s" % (list(aa.symbols)[:6], list(b.elements)[:6]), "ase_elements")
         st.count("ase_agreed")
+    except LookupError:
+        pass
     except Exception as e:
         st.count("ase_reader_unusable")
         st.seen("ase_error", "%s: %s" % (type(e).__name__, str(e)[:80]))
@@ -310,8 +327,8 @@ def requirements(stats, tier):
     need = []
     if stats.get("files_read_back") < (180 if tier == "quick" else 50000):
         need.append("too few files read back: %d" % stats.get("files_read_back"))
-    if stats.nseen("class") < 15:
-        need.append("only %d of 15 (cell x mode x placement) classes observed" % stats.nseen("class"))
+    if stats.nseen("class") < 18:
+        need.append("only %d of 18 (cell x mode x placement) classes observed" % stats.nseen("class"))
     if stats.nseen("extra_columns") < 4:
         need.append("extra columns not observed on all four loops")
     if stats.get("impropers_with_torsion_columns") < 3:
@@ -320,6 +337,6 @@ def requirements(stats, tier):
         need.append("structures in which two atom types share an element (and terms exist): %d" % stats.get("structures_with_two_atom_types_of_one_element_and_terms"))
     if stats.get("non_p1_rejected") < 50 or stats.get("su_variants") < 50:
         need.append("reading variants not exercised")
-    if stats.get("ase_agreed") < 0.8 * stats.get("files_written"):
+    if stats.get("ase_agreed") + stats.get("ase_not_consulted_(two sites within its merging distance)") < 0.8 * stats.get("files_written"):
         need.append("ASE usable for only %d of %d files (%s)" % (stats.get("ase_agreed"), stats.get("files_written"), sorted(stats.sets.get("ase_error", []))[:2]))
     return need
